@@ -221,7 +221,8 @@ theorem createValue_int (b : Nat) (res : Val) :
 theorem createValue_uint (b : Nat) (res : Val) :
     createValue sv (.uint b) res = .int (toInt (Model.toNum sv res)) := rfl
 theorem createValue_float (b : Nat) (res : Val) :
-    createValue sv (.float b) res = .float (Model.toNum sv res) := rfl
+    createValue sv (.float b) res
+      = .float (if b == 32 then Num.toFloat32 (Model.toNum sv res) else Model.toNum sv res) := rfl
 
 /-! ### slices -/
 
